@@ -44,3 +44,14 @@ Theorem C12_defined_history :
 Proof. exact defined_history. Qed.
 Print Assumptions C12_defined_history.
 
+(* configuration objects: an accepted object assignment stores that very object and makes exactly its key user-defined; the list routes and every refusal change no mark (mark_effect / declared_target above include CSetObj) *)
+
+Theorem C12_set_obj_ok :
+  forall (F : Type) (lvalidate lto_python : F -> pyval -> res pyval) (ldefault : F -> N -> pyval) (lcallable lflag : F -> bool) (vrun : N -> list (str * pyval) -> bool) (k : str) (src : cfg) (w : world) (pre : str) (c : cfg) (dyn : bool) (vs : list N) (fs : list (str * node F)) (w' : world) (c' : cfg), apply_cop F lvalidate lto_python ldefault lcallable lflag vrun w pre c dyn vs fs (CSetObj k src) = (w', c', OOk) -> c' = store c k (VCfg src) /\ w' = w /\ (exists (d' : bool) (vs' : list N) (fs' : list (str * node F)), fget F k fs = Some (NSub d' vs' fs')).
+Proof. exact set_obj_ok. Qed.
+Print Assumptions C12_set_obj_ok.
+
+Theorem C12_obj_marks :
+  forall (F : Type) (lvalidate lto_python : F -> pyval -> res pyval) (ldefault : F -> N -> pyval) (lcallable lflag : F -> bool) (vrun : N -> list (str * pyval) -> bool) (o : cop) (w : world) (pre : str) (c : cfg) (vs : list N) (fs : list (str * node F)) (w' : world) (c' : cfg) (r : oc), is_obj_op o = true -> declared_target F fs o = true -> apply_cop F lvalidate lto_python ldefault lcallable lflag vrun w pre c false vs fs o = (w', c', r) -> forall k : str, defined c' k = match o with | CSetObj k' _ => match r with | OOk => defined c k || str_eqb k k' | _ => defined c k end | _ => defined c k end.
+Proof. exact obj_marks. Qed.
+Print Assumptions C12_obj_marks.
